@@ -1,6 +1,6 @@
 #![allow(non_camel_case_types, non_snake_case, dead_code)]
 #[tarpc::service]
-pub trait Rej43 {
-    async fn serve(a0: i32, a1: i32);
+pub trait Rej71 {
+    async fn new(a0: i32);
 }
 fn main() {}
